@@ -79,6 +79,7 @@ def _all(cfg):
     T(["C17"], "date_to_dt_coalesce", lambda p, t: t >> p.mutate(y=p.coalesce(t.t, t.d.cast(p.Datetime()))))
     T(["C17"], "date_to_dt_agg", lambda p, t: t >> p.summarize(y=t.d.cast(p.Datetime()).max(), z=t.t.cast(p.Date()).min()))
     T(["C17"], "date_to_dt_arrange", lambda p, t: t >> p.arrange(t.d.cast(p.Datetime()).nulls_last(), t.a.nulls_last()))
+    T(["C17", "C12"], "identity_casts", lambda p, t: t >> p.mutate(y=t.d.cast(p.Date()), z=t.t.cast(p.Datetime()), w=t.d.cast(p.Date()) == t.d))
     T(["C17"], "null_to_date", lambda p, t: t >> p.mutate(y=p.lit(None).cast(p.Date()), z=t.d.cast(p.Datetime()).is_null()))
     # frames whose datetime column has millisecond / nanosecond unit (arrow / parquet / pandas data)
     for unit, ty in (("ms", DT_MS), ("ns", DT_NS)):
